@@ -20,6 +20,8 @@ pub struct ColSpec {
     pub threshold: Option<u32>,
     pub append_only: bool,
     pub direct: bool,
+    /// the key universe must not contain the empty key (cursor runs: seek_to_first = rank 0)
+    pub noempty: bool,
 }
 
 impl ColSpec {
@@ -33,6 +35,7 @@ impl ColSpec {
             threshold: j["threshold"].as_u64().map(|x| x as u32),
             append_only: j["append_only"].as_bool().unwrap_or(false),
             direct: j["direct"].as_bool().unwrap_or(false),
+            noempty: j["noempty"].as_bool().unwrap_or(false),
             kind,
         }
     }
@@ -119,6 +122,7 @@ impl Universe {
                     } else {
                         BTREE_KEY_LENS[(seed as usize + i) % BTREE_KEY_LENS.len()]
                     };
+                    let len = if len == 0 && spec.noempty { 3 } else { len };
                     let mut k = fill(&mut rng, len, false);
                     // a few keys that are prefixes of each other
                     if i % 5 == 4 && !ks.is_empty() {
@@ -159,6 +163,11 @@ impl Universe {
             u.rev.push(m);
         }
         u
+    }
+
+    /// rank of a key read back from the database (0 = not in the universe)
+    pub fn key_rank(&self, c: usize, key: &[u8]) -> usize {
+        self.keys[c].iter().position(|k| k.as_slice() == key).map(|i| i + 1).unwrap_or(0)
     }
 
     pub fn key(&self, c: usize, k: usize) -> &Vec<u8> {
